@@ -93,16 +93,19 @@ theorem C04_forward_relay (cfg : Forward.Cfg) (m : Nat) (x₁ : Bytes) (P₁ : P
   · have := r.up; rw [i4] at this; simpa [U] using this
   · have := r.connects; rw [i5] at this; simpa using this
 
-/-- the host a request names -/
-def hostOf (r : Forward.Req) : Option Bytes :=
+/-- the origin (host, port text) a request names -/
+def originOf (r : Forward.Req) : Option (Bytes × Option Bytes) :=
   match r.target with
-  | .absolute host _ _ => some host
+  | .absolute host port _ => some (host, port)
   | .origin _ => none
+
+/-- the host a request names -/
+def hostOf (r : Forward.Req) : Option Bytes := (originOf r).map (·.1)
 
 /-- **C04 (forward proxy), partial.**  For every non-empty list `r₁ :: rs` of well-formed
 absolute-form requests (C02's `Req.WF`: any method but CONNECT, any fields with unique names, no
 body / Content-Length / chunked in any layout), the follow-ups not protocol switches and naming
-`r₁`'s host, delivered so that no TCP segment holds bytes of two requests — each `render rᵢ` cut
+`r₁`'s origin (host and port), delivered so that no TCP segment holds bytes of two requests — each `render rᵢ` cut
 anywhere into non-empty pieces — under every benign tick schedule: the proxy does not tear the
 connection down; it connects once, to `r₁`'s host; written to + queued for that upstream is exactly
 `render (fwdImpl true cfg r₁) ++ render (fwdImpl false cfg r₂) ++ …` (by C02 each the forward form of
@@ -111,7 +114,7 @@ host; and (C01) the client has received / will receive the upstream's byte strea
 theorem C04_partial_forward (cfg : Forward.Cfg) (hcfg : Forward.CfgOk cfg) (m : Nat)
     (r₁ : Forward.Req) (rs : List Forward.Req)
     (hwf : ∀ r ∈ r₁ :: rs, r.WF ∧ r.isAbsolute = true)
-    (hnu : ∀ r ∈ rs, notUpgrade r = true) (hsame : ∀ r ∈ rs, hostOf r = hostOf r₁)
+    (hnu : ∀ r ∈ rs, notUpgrade r = true) (hsame : ∀ r ∈ rs, originOf r = originOf r₁)
     (segs₁ : List Bytes) (segss : List (List Bytes))
     (hc1 : Cuts segs₁ (Forward.render r₁)) (hc : All₂ Cuts segss (rs.map Forward.render))
     (ticks : List Tick) (hb : ∀ t ∈ ticks, benign t = true)
@@ -147,11 +150,11 @@ theorem C04_partial_forward (cfg : Forward.Cfg) (hcfg : Forward.CfgOk cfg) (m : 
   obtain ⟨c1, c2, c3, c4, c5⟩ := C04_forward_relay cfg m (Forward.render r₁) P₁ _ _ _ _ segs₁ segss h1 hl hc1 hc
     ticks hb hsegs
   refine ⟨P₁, _, c1, c2, c3, c4, ?_, c5⟩
-  have h0 : hostOf r₁ = some host := by simp [hostOf, ht]
+  have h0 : hostOf r₁ = some host := by simp [hostOf, originOf, ht]
   intro r hr
   rcases List.mem_cons.1 hr with rfl | hr
   · exact ⟨host, h0, rfl⟩
-  · exact ⟨host, by rw [hsame r hr]; exact h0, rfl⟩
+  · exact ⟨host, by unfold hostOf; rw [hsame r hr]; exact h0, rfl⟩
 
 /-! ## built-in web server -/
 
@@ -298,7 +301,7 @@ def exR (c : UInt8) : Forward.Req :=
 
 def exPost : Forward.Req :=
   { method := [80, 79, 83, 84]
-    target := .absolute [101, 120, 97, 109, 112, 108, 101, 46, 99, 111, 109] (some [56, 48]) [47, 112]
+    target := .absolute [101, 120, 97, 109, 112, 108, 101, 46, 99, 111, 109] none [47, 112]
     version := Px.Gen.http11
     fields := [⟨[72, 111, 115, 116], [32], [101, 120, 97, 109, 112, 108, 101, 46, 99, 111, 109], []⟩,
       ⟨[84, 114, 97, 110, 115, 102, 101, 114, 45, 69, 110, 99, 111, 100, 105, 110, 103], [32], [99, 104, 117, 110, 107, 101, 100], []⟩]
@@ -306,7 +309,7 @@ def exPost : Forward.Req :=
     framing := .chunked [⟨[50], [], [104, 105]⟩] [48] [] }
 
 example : (exR 49).WF ∧ (exR 50).WF ∧ exPost.WF := by decide +kernel
-example : ∀ r ∈ [exR 50, exPost], notUpgrade r = true ∧ hostOf r = hostOf (exR 49) ∧ r.isAbsolute = true := by
+example : ∀ r ∈ [exR 50, exPost], notUpgrade r = true ∧ originOf r = originOf (exR 49) ∧ r.isAbsolute = true := by
   decide +kernel
 example : Forward.CfgOk {} := by decide +kernel
 /-- a cut of `render (exR 49)` into three non-empty pieces, and of the follow-ups into 1 and 2 -/
